@@ -151,6 +151,12 @@ func HarnessC06Recipients() {
 	nops := svParam("opkinds", len(hxC06OpNames))
 	name := "plain name"
 	m := NewMsg()
+	latin := svParam("charsets", 1) > 1 && svPick("msg-charset", 2) == 1
+	if latin {
+		// the message charset is not UTF-8; display names are Go strings all the same
+		m = NewMsg(WithCharset(CharsetISO88591))
+		name = "J\u00f6rg M\u00fcller"
+	}
 	m.Subject("c06")
 	m.SetDateWithValue(hxFixedTime)
 	m.SetMessageIDWithValue("c06@x.example")
@@ -171,7 +177,7 @@ func HarnessC06Recipients() {
 		if op == 1 || op == 4 || op == 5 || op == 12 {
 			b = svPick("b", na)
 		}
-		if (op == 3 || op == 14) && !symName {
+		if (op == 3 || op == 14) && !symName && !latin {
 			symName = true
 			nb := svBytes("name", svParam("n", 2))
 			for _, c := range nb {
